@@ -80,6 +80,17 @@ func validate(
 			len(remove),
 		)
 	}
+	// the empty name stands for "nothing on board" in the stop data
+	for _, items := range []map[ModelStop]MixItem{insert, remove} {
+		for stop, item := range items {
+			if item.Name == "" {
+				return fmt.Errorf(
+					"no-mix constraint, stop %v has an item without a name",
+					stop.ID(),
+				)
+			}
+		}
+	}
 	deltaPerPlanUnit := make(map[ModelPlanStopsUnit]int)
 	namePerPlanUnit := make(map[ModelPlanStopsUnit]string)
 	stops := make(map[ModelStop]string, len(insert)+len(remove))
